@@ -15,7 +15,7 @@ THEOREMS = ['C09.C09_tokenize_words', 'C09.C09_padding_is_layout', 'C09.C09_toke
             'C09.C09_mqueue_without_name', 'C09.C09_marker_empty_comment', 'C09.C09_paragraph_ends_brace',
             'C09.C09_file_all_paths', 'C09.C09_file_roundtrip', 'C09.tables_are_words', 'C09.C09_capability_all_lists',
             'C09.C09_network_all', 'C09.C09_network_unknown_type_dropped', 'C09.ptrace_table_words', 'C09.C09_ptrace_all',
-            'C09.signal_table_words', 'C09.C09_signal_all', 'C09.C09_rlimit_all', 'C09.cp_mode_words', 'C09.C09_change_profile_all']
+            'C09.signal_table_words', 'C09.C09_signal_all', 'C09.C09_rlimit_all', 'C09.cp_mode_words', 'C09.C09_change_profile_all', 'C09.C09_link_all']
 
 LINE_KINDS = ('include', 'comment', 'variable')
 
